@@ -516,7 +516,14 @@ class Interp:
             pos = m.end()
             spec = m.group(1)
             conv = "r" if spec.endswith("!r") else ""
-            a = c.args[i] if i < len(c.args) else None
+            fname = spec.split("!")[0].split(":")[0]
+            a = None
+            if fname and not fname.isdigit():
+                a = next((k.value for k in c.keywords if k.arg == fname), None)
+            elif fname.isdigit():
+                a = c.args[int(fname)] if int(fname) < len(c.args) else None
+            else:
+                a = c.args[i] if i < len(c.args) else None
             if a is None:
                 ok = False
                 continue
